@@ -39,12 +39,18 @@ def truth(clause, vals):
     else:
         if k == "cmp":
             state = vals[clause["state"]]
+            if isinstance(state, dict):
+                state = state[clause.get("sfield") or "value"]
             goal = clause["goal"]
-            goal = vals[goal["path"]] if isinstance(goal, dict) else goal
+            if isinstance(goal, dict):
+                gv = vals[goal["path"]]
+                goal = gv[goal.get("field") or "value"] if isinstance(gv, dict) else gv
         else:
             state = 0.125 if k == "elapsed" else 1
             goal = clause["goal"]
-            goal = vals[goal["path"]] if isinstance(goal, dict) else goal
+            if isinstance(goal, dict):
+                gv = vals[goal["path"]]
+                goal = gv[goal.get("field") or "value"] if isinstance(gv, dict) else gv
         op = clause["op"]
         tol = clause.get("tol")
         num = lambda x: isinstance(x, (int, float)) and not isinstance(x, bool)
@@ -127,6 +133,35 @@ def single_clauses():
                             c = {"kind": "cmp", "state": ".q.s", "op": op, "neg": neg, "tol": t,
                                  "goal": {"path": ".q.g"} if indirect else g}
                             out.append((c, {".q.s": sv, ".q.g": g}))
+    # explicitly written fields: state `sf in .q.s`, goal `gf in .q.g`; the shares hold other fields (value, the
+    # other side's field name) with values for which the comparison comes out the other way
+    for op in OPS:
+        for neg in (False, True):
+            for s_, g_ in ((5, 10), (10, 5), (5, 5)):
+                wrong = g_ + (7 if g_ <= s_ else -7) if g_ != s_ else s_ + 3     # flips every operator's verdict
+                for sfield in (None, "sf", "lim"):
+                    for gfield in ("lim", "sf", "gf"):
+                        # (`value` cannot be combined with other fields in direct data: a share read through its default
+                        # field is a plain value share)
+                        sv = s_ if sfield is None else {"sf": s_ if sfield == "sf" else wrong,
+                                                        "lim": s_ if sfield == "lim" else wrong, "gf": wrong}
+                        gv = {"sf": g_ if gfield == "sf" else wrong, "lim": g_ if gfield == "lim" else wrong,
+                              "gf": g_ if gfield == "gf" else wrong}
+                        for tol in ((None, 2) if op in ("==", "!=") else (None,)):
+                            c = {"kind": "cmp", "state": ".q.s", "op": op, "neg": neg, "tol": tol,
+                                 "goal": {"path": ".q.g", "field": gfield}}
+                            if sfield:
+                                c["sfield"] = sfield
+                            out.append((c, {".q.s": sv, ".q.g": gv}))
+    for op in OPS:      # clocks against a goal field of a share
+        for kind, st0 in (("elapsed", 0.125), ("recurred", 1)):
+            for g_ in (st0, st0 * 2, 0):
+                wrong = g_ + (7 if g_ <= st0 else -7) if g_ != st0 else st0 + 3
+                for re_ in (None, "me"):
+                    c = {"kind": kind, "op": op, "neg": False, "goal": {"path": ".q.g", "field": "lim"}}
+                    if re_ is not None:
+                        c["re"] = re_
+                    out.append((c, {".q.s": 0, ".q.g": {"lim": g_, kind: wrong}}))
     # framer clocks: bare spelling and the explicit `state re [me|<own framer name>]` spelling, goal direct or
     # from a share, with and without tolerance
     for op in OPS:
@@ -161,7 +196,7 @@ def build_program(items):
             if "state" in n:
                 n["state"] = ren[n["state"]]
             if isinstance(n.get("goal"), dict):
-                n["goal"] = {"path": ren[n["goal"]["path"]]}
+                n["goal"] = dict(n["goal"], path=ren[n["goal"]["path"]])
             if n.get("re") == "SELF":
                 n["re"] = "m%d" % i
             ns.append(n)
@@ -204,6 +239,8 @@ def is_nt(needs, vals):
     if len(needs) > 1 or any(n.get("neg") for n in needs):
         return True
     n = needs[0]
+    if n["kind"] == "cmp" and isinstance(vals[".q.s"], dict):
+        return True
     if n["kind"] == "cmp" and not isinstance(vals[".q.s"], str):
         g = vals[".q.g"]
         s = vals[".q.s"]
@@ -238,7 +275,8 @@ def work(shard, seed, tier):
                 acc.case(key=(A.render_needs(needs), sorted(vals.items(), key=str)), nontrivial=is_nt(needs, vals),
                          classes=[needs[0]["kind"] + ("" if "op" not in needs[0] else needs[0]["op"])] +
                          (["decimal-band-edge"] if needs[0]["kind"] == "cmp" and needs[0].get("tol") and
-                          isinstance(vals.get(".q.s"), float) and not float(vals[".q.s"] * 8).is_integer() else []))
+                          isinstance(vals.get(".q.s"), float) and not float(vals[".q.s"] * 8).is_integer() else []) +
+                         (["explicit-goal-field"] if isinstance(needs[0].get("goal"), dict) and needs[0]["goal"].get("field") else []))
             if c0 == 0:
                 acc.samples.append({"conditions": [A.render_needs(n) for n, v in items[:6]], "values": [v for n, v in items[:6]]})
             for sig, what in fails:
@@ -264,7 +302,7 @@ def work(shard, seed, tier):
                     c["state"] = ".q.s%d" % j
                     vals[".q.s%d" % j] = v[".q.s"]
                 if isinstance(c.get("goal"), dict):
-                    c["goal"] = {"path": ".q.g%d" % j}
+                    c["goal"] = dict(c["goal"], path=".q.g%d" % j)
                     vals[".q.g%d" % j] = v[".q.g"]
                 elif "state" not in c:
                     vals.setdefault(".q.g%d" % j, 0)
@@ -287,7 +325,7 @@ def replay(case):
 
 
 RULE = ("full table of single clauses (6 operators x not x int/float/negative/zero/string/bool states x goal on/below/above the state x direct/indirect goal x "
-        "tolerance none/0/0.5/-0.5; decimal states on / inside / outside the edge of decimal tolerance bands; elapsed/recurred clocks in the bare and the `re [me|framer]` spelling with direct/indirect goal and tolerance; bare truthiness) + Hypothesis conjunctions of 1-3 clauses; each clause is a `go b if ..` whose "
+        "tolerance none/0/0.5/-0.5; decimal states on / inside / outside the edge of decimal tolerance bands; explicitly written state and goal fields (`sf in path`) of multi-field shares; elapsed/recurred clocks in the bare and the `re [me|framer]` spelling with direct/indirect goal and tolerance; bare truthiness) + Hypothesis conjunctions of 1-3 clauses; each clause is a `go b if ..` whose "
         "outcome at its first evaluation is compared with direct evaluation of the written comparison. non-trivial = negated, conjunction, clock, or goal "
         "within 0.5 of the state (boundary); distinct = distinct (condition text, share values)")
 ASSUMPTIONS = ["ordering operators are only generated between number-number and string-string operands",
